@@ -7,6 +7,9 @@ unique_arrs_and_bases(tensors)   (generator)
   ensures  no array is written, nothing but `.data` / `.base` is read
 release_writeability_lock_on_op(arr_refs)
   ensures  _release_lock_on_arr_writeability is called exactly once per live array of arr_refs, in order, and nothing else happens
+lock_unique_arrs_and_bases(tensors)     (added by the repair of defect F26; see lockset_harness)
+  ensures  arrays that are read-only in their own right in the ENTRY state are neither locked nor tracked nor returned; every other array of
+           unique_arrs_and_bases(tensors) is locked exactly once and returned
 force_lock_tensor_and_creators(tensor)
   ensures  every array of unique_arrs_and_bases(tensor.creator.variables) is locked exactly once (not forced), then tensor.data is
            locked with force_lock=True (an in-place target is already read-only: it must be *tracked* so that it is released later)
@@ -163,6 +166,16 @@ def force_harness(pattern):
         cfg.summaries[f"{LM}:lock_arr_writeability"] = lambda i_, a, k: (ev.append(("lock", a[0], dict(k), len(a))), a[0])[1]
         cfg.summaries[f"{LM}:release_writeability_lock_on_op"] = lambda i_, a, k: ev.append(("release-now",))
 
+        def lockset(interp_, a, k):
+            # contract C08.lockset (below), in a state where no operand is natively read-only: each array of unique_arrs_and_bases(operands)
+            # locked once, not forced; the locked arrays are returned in that order
+            ev.append(("unique", a[0]))
+            for arr in uniq_result:
+                ev.append(("lock", arr, {}, 1))
+            return tuple(uniq_result)
+
+        cfg.summaries[f"{LM}:lock_unique_arrs_and_bases"] = lockset
+
         class WRI:
             def __init__(self, items=()):
                 self.items = list(items)
@@ -211,10 +224,129 @@ def force_harness(pattern):
     return h
 
 
+class FArr:
+    """array with a symbolic writeable flag (for the lock-set contract)"""
+
+    def __init__(self, name, base, ctx, log):
+        import z3
+
+        self.name, self._base, self.log = name, base, log
+        self.w = z3.Bool(f"writeable0[{name}]")  # current flag (entry value symbolic)
+
+        class _F:
+            pass
+
+        self._flags = _F()
+
+    def __sym_getattr__(self, interp, attr):
+        if attr == "base":
+            return self._base
+        if attr == "flags":
+            me = self
+
+            class Flags:
+                def __sym_getattr__(self_, interp_, a):
+                    if a == "writeable":
+                        return me.w
+                    raise SymRaise.__new__(SymRaise)
+
+                def __sym_setattr__(self_, interp_, a, v):
+                    me.log.append(("flag-write", me.name, v))
+                    me.w = v
+
+            return Flags()
+        self.log.append(("read", self.name, attr))
+        raise SymRaise.__new__(SymRaise)
+
+    def __sym_id__(self, interp):
+        return ("arr-id", self.name)
+
+    def __repr__(self):
+        return f"<arr {self.name}>"
+
+
+def lockset_harness(pattern):
+    """lock_unique_arrs_and_bases(tensors), with the lock primitive replaced by its contract (C08.lock, contracts/c08_locks.py) on a STATEFUL
+    tracker model: flags and tracker membership of every array are symbolic at entry.
+      native(a) := a is read-only, a is not tracked, and a has no base or its base is not tracked          -- all evaluated in the ENTRY state
+      ensures  native(a)  => a is not locked, not tracked afterwards, its flag untouched, and it is not among the returned arrays
+               (arrays that were read-only beforehand stay read-only: nothing will ever 'unlock' them)
+      ensures  !native(a) => a is locked exactly once (not forced) and is among the returned arrays, in unique_arrs_and_bases order"""
+    import z3
+
+    def h(ctx: Ctx):
+        cfg = Config()
+        cfg.builtins = default_builtins()
+        log, ev = [], []
+        X, Y = FArr("X", None, ctx, log), FArr("Y", None, ctx, log)
+        arrs = []
+        for i, p in enumerate(pattern):
+            if p == "own":
+                arrs.append(FArr(f"a{i}", None, ctx, log))
+            elif p == "viewX":
+                arrs.append(FArr(f"a{i}", X, ctx, log))
+            elif p == "viewY":
+                arrs.append(FArr(f"a{i}", Y, ctx, log))
+            else:
+                arrs.append(arrs[int(p[4:])])
+        members = expected_members(arrs)
+        tracked = {id(a): z3.Bool(f"tracked0[{a.name}]") for a in members}
+        w0 = {id(a): a.w for a in members}
+        t0 = dict(tracked)
+        interp = None
+
+        def is_tracked(interp_, a, k):
+            return tracked[id(a[0])]
+
+        def lock(interp_, a, k):
+            arr = a[0]
+            force = bool(k.get("force_lock", False)) or (len(a) > 1 and a[1])
+            ev.append(("lock", arr, force))
+            if interp_.truth(tracked[id(arr)]):
+                return arr  # counter + 1
+            base_tr = arr._base is not None and interp_.truth(tracked[id(arr._base)])
+            if not force and not interp_.truth(arr.w) and not base_tr:
+                return arr  # natively read-only at the time of the call: left alone
+            tracked[id(arr)] = True
+            arr.w = False
+            return arr
+
+        cfg.summaries[f"{LM}:array_is_tracked"] = is_tracked
+        cfg.summaries[f"{LM}:lock_arr_writeability"] = lock
+        cfg.summaries[f"{LM}:unique_arrs_and_bases"] = lambda i_, a, k: list(members)
+        interp = Interp(ctx, cfg)
+
+        class T:
+            def __init__(self, a):
+                self.data = a
+
+        f = interp.global_lookup(interp.module(LM), "lock_unique_arrs_and_bases")
+        tag = f"C08.lockset[{','.join(pattern)}]"
+        meta = dict(function=f"{LM}:lock_unique_arrs_and_bases", pattern=list(pattern))
+        try:
+            got = list(interp.iterate_concrete(interp.call(f, [[T(a) for a in arrs]], {})))
+        except SymRaise as e:
+            ctx.oblige(f"{tag}.no_exception", False, **meta)
+            return
+        B = lambda v: v if z3.is_expr(v) else z3.BoolVal(bool(v))  # noqa
+        exp_order = []
+        for a in members:
+            native = z3.And(z3.Not(w0[id(a)]), z3.Not(t0[id(a)]), z3.BoolVal(True) if a._base is None else z3.Not(t0[id(a._base)]))
+            n_locks = sum(1 for e in ev if e[1] is a)
+            returned = sum(1 for g in got if g is a)
+            ctx.oblige(f"{tag}.natively_read_only_array_left_alone[{a.name}]", z3.Implies(native, z3.And(z3.BoolVal(n_locks == 0 and returned == 0), z3.Not(B(tracked[id(a)])), B(a.w) == w0[id(a)])), **meta)
+            ctx.oblige(f"{tag}.every_other_array_locked_once_not_forced_and_returned[{a.name}]", z3.Implies(z3.Not(native), z3.BoolVal(n_locks == 1 and returned == 1 and not any(e[2] for e in ev if e[1] is a))), **meta)
+        pos = [next((i for i, m in enumerate(members) if m is g), -1) for g in got]
+        ctx.oblige(f"{tag}.returned_in_unique_order", pos == sorted(pos) and -1 not in pos, **meta)
+        ctx.oblige(f"{tag}.no_flag_written_directly", not any(e[0] == "flag-write" for e in log), **meta)
+
+    return h
+
+
 def obligations(tier="quick"):
     out = []
     info = {"functions": {}, "unsupported": [], "paths": 0}
-    for q in (f"{LM}:unique_arrs_and_bases", f"{LM}:release_writeability_lock_on_op", f"{LM}:force_lock_tensor_and_creators"):
+    for q in (f"{LM}:unique_arrs_and_bases", f"{LM}:release_writeability_lock_on_op", f"{LM}:force_lock_tensor_and_creators", f"{LM}:lock_unique_arrs_and_bases"):
         try:
             _m, node, _c = frontend.find(q)
             info["functions"][q] = frontend.source_hash(node)
@@ -226,6 +358,7 @@ def obligations(tier="quick"):
             hs.append((f"unique{pat}", unique_harness(pat)))
             if n <= 2:
                 hs.append((f"force{pat}", force_harness(pat)))
+                hs.append((f"lockset{pat}", lockset_harness(pat)))
     hs.append(("unique()", unique_harness(())))
     for n in (0, 1, 2, 3):
         for dead in ([set()] + [{i} for i in range(n)]):
